@@ -147,7 +147,8 @@ def pvl_flavor(
         try:
             pvl.dumps(some_pvl, **decenc)
             encodes = True
-        except (LexerError, ParseError, ValueError) as err:
+        except Exception as err:
+            # An encoder failure must not be reported as a load failure.
             logging.error(f"{dialect} encode error {filename} {err}")
             encodes = False
     except (LexerError, ParseError) as err:
